@@ -195,7 +195,7 @@ func sign(x int) int {
 }
 
 func auxValues(r *rand.Rand, seed int64, n int, emit func(E), stats map[string]int) {
-	variants := [][2]string{{"general", "general"}, {"extremes", "general"}, {"floats", "wide"}}
+	variants := [][2]string{{"general", "general"}, {"extremes", "general"}, {"floats", "wide"}, {"general", "far"}}
 	v := variants[int(seed)%len(variants)]
 	u := NewUniverse(v[0], v[1])
 	vals := valueUniverse(r, u, n)
@@ -1107,6 +1107,10 @@ func auxKeys(r *rand.Rand, n int, emit func(E), stats map[string]int) {
 		phase("scan", func() error { _, err := db.FindAll(query.NewQuery(name)); return err })
 		phase("indexscan", func() error {
 			_, err := db.FindAll(query.NewQuery(name).Where(query.Field(field).Eq(gv)))
+			return err
+		})
+		phase("revscan", func() error {
+			_, err := db.FindAll(query.NewQuery(name).Sort(query.SortOption{Field: field, Direction: -1}))
 			return err
 		})
 		phase("list", func() error { _, err := db.ListCollections(); return err })
